@@ -142,8 +142,14 @@ class SSHChannel(log.Logger):
         if self.extBuf:
             b = self.extBuf
             self.extBuf = []
+            # Do not let a pending close go out before every buffered item
+            # has been written again.
+            closing, self.closing = self.closing, False
             for type, data in b:
                 self.writeExtended(type, data)
+            self.closing = closing
+            if closing:
+                self.loseConnection()
 
     def requestReceived(self, requestType, data):
         """
